@@ -259,6 +259,18 @@ def third_party_parser_reject(e):
     return in_lib and not in_conv
 
 
+def missing_domain_requirement(e):
+    """the strict third-party parser rejects the DOMAIN the writer produced because a requirement is not declared"""
+    if type(e).__name__ != "PDDLMissingRequirementError":
+        return None
+    files = [fr.filename for fr in _frames(e)]
+    if any(f.endswith("pddl/parser/problem.py") for f in files):
+        return None           # the problem file has no :requirements section at all: the parser's own convention
+    import re
+    m = re.search(r"(:[a-z-]+)", str(e))
+    return m.group(1) if m else "?"
+
+
 def diagnose(ctx, case, preamble=""):
     """the checker's own witness (failing kind, action sequence, instance), as printed by Coq"""
     return ctx.coq_show("run_check (%s)" % case, imports=IMPORTS, preamble=preamble)[:1500]
